@@ -313,3 +313,21 @@ SETFAULT_THOROUGH = [
     SetFaultCfg("small", "TR", "less", "greater", "set", 4, "exact", compiler="clang++-14"),
     SetFaultCfg("flat", "NTR", "less", "greater", "v", alloc="basic", std="c++20"),
 ]
+
+
+class SimpleCfg:
+    """a harness program that needs no type configuration, built at a given -std / compiler"""
+
+    def __init__(self, prefix, main_file, std="c++17", compiler="g++", extra=(), san="asan", opt=None, defs=""):
+        self.std, self.compiler, self.main_file, self.extra, self.san, self.opt, self.defs = std, compiler, main_file, list(extra), san, opt, defs
+        self.name = "%s_%s_%s" % (prefix, std.replace("c++", "cxx"), "gcc" if compiler == "g++" else "clang")
+
+    def source(self):
+        return '#define VF_CFG_NAME "%s"\n%s#include "%s"\n' % (self.name, self.defs, self.main_file)
+
+    def spec(self):
+        return {"name": self.name, "source": self.source(), "std": self.std, "compiler": self.compiler, "extra": self.extra, "san": self.san, "opt": self.opt}
+
+
+ALGO_QUICK = [SimpleCfg("ma", "mem_algos_main.cpp", s) for s in ("c++11", "c++14", "c++17", "c++20")]
+ALGO_THOROUGH = [SimpleCfg("ma", "mem_algos_main.cpp", s, "clang++-14") for s in ("c++11", "c++14", "c++17", "c++20")]
